@@ -57,6 +57,32 @@ Fourth wave (alphabets in mc/domains/w4_c06.py):
   mapping; thorough adds triples partner + two lacking groups under every
   ordered pair of distinct placements.  Expected range / has-data from a
   dictionary model of the descriptions.
+
+Fifth wave (alphabets in mc/domains/w5_c06.py):
+* family SETRANGE, refused calls: a set_range() call that raises no longer
+  ends its history.  The object is judged on the grid (and, in the
+  pre-evaluated histories, on the union of the grids of the history) against
+  whatever range it reports after the refusal - the statement does not say
+  which range that has to be, but the object must honour the one it reports -
+  and the history goes on with the next call, so that all (refused, accepted),
+  (refused, refused) and (accepted, refused) pairs are walked.  Two further
+  placements that an object with a table must refuse join the alphabet: a
+  range that excludes only T_ref, and one that excludes the lowest table
+  points (8 placements per base group);
+* family RNG: estimates on a constructor-built library over complete groups
+  whose declared ranges are ALL intervals over the endpoint alphabet
+  {Z, 100, 300, 400, 1000} K with Z = 0 K in every presentation of zero (0.0,
+  -0.0, integer 0, smallest denormal; thorough also 1e-300, 1e-9): every
+  ordered pair of intervals (a repeated interval = two groups with equal
+  ranges), and every ordered triple over a reduced alphabet.  All relations
+  two ranges can have occur in both orders of the mapping: disjoint, meeting
+  in one point, overlapping, nested with a common lower / upper bound or
+  none, equal;
+* DISJOINT constituent ranges are now judged (RNG, and the thorough triples
+  of MIX): the intersection is empty, so the estimate must be refused
+  (Estimate raises) or report a range that contains no temperature (lower
+  bound > upper bound) and then signal at every temperature; reporting a
+  range that contains a temperature, or no range limits, is a violation.
 """
 import math
 
@@ -66,6 +92,7 @@ from ..domains import estimates as E
 from ..domains import libs
 from ..domains import w3_c06 as W3
 from ..domains import w4_c06 as W4
+from ..domains import w5_c06 as W5
 from . import c05
 
 LEVEL = 'exploration'
@@ -94,11 +121,22 @@ RULE = ('every correlation / estimate is evaluated for Cp/R, H/RT, S/R at '
         'first call, every step on the union of the grids of the history.  '
         'MIX: the estimate reports the intersection of the declared ranges '
         '(dictionary model) and is judged on the grid, has-data / '
-        'no-heat-capacity taken from the descriptions')
+        'no-heat-capacity taken from the descriptions.  SETRANGE, refused '
+        'call: the object is judged on the same grids against whatever range '
+        'it reports after the refusal, then the history continues.  RNG: the '
+        'estimate over groups with interval ranges reports exactly (max of '
+        'the lower bounds, min of the upper bounds) and is judged on the '
+        'grid; when that intersection is empty the estimate must be refused '
+        'or report a range without any temperature in it (lower > upper '
+        'bound) and signal everywhere')
 ASSUMPTIONS = ['numpy floating scalars count as plain numbers; Quantity objects '
                'and arrays do not',
-               'estimates whose constituent ranges are disjoint are not judged '
-               '(statement silent)',
+               'constituent ranges that do not intersect: a refusal (Estimate '
+               'raises) and a reported range with lower bound > upper bound '
+               'both count as reporting the empty intersection (RNG family, '
+               'thorough MIX triples); in the shipped-library family such an '
+               'estimate, if one came out, is still not judged (none occurs '
+               'in the shipped data)',
                'correlations without any range are judged on the inside clause '
                'only',
                'an estimate object obtained BEFORE a later Update() is not '
@@ -108,8 +146,14 @@ ASSUMPTIONS = ['numpy floating scalars count as plain numbers; Quantity objects 
                'HIST model uses it to predict the range of a merged group',
                'arrays are offered to get_CpoR only (H/RT and S/R do not accept '
                'arrays on any path)',
-               'a set_range() call that raises ends its history without a '
-               'verdict (statement silent about which ranges may be set)',
+               'the statement is silent about which ranges set_range() may '
+               'refuse and about which range the object has to report after a '
+               'refusal: neither is judged, but the object is judged against '
+               'the range it does report (until the fifth wave a refused call '
+               'ended its history without a verdict)',
+               'RNG family: inside temperatures below 1 K are not probed (a '
+               'range may start at 0 K, where H/RT has a pole for every '
+               'implementation); 0 K and below stay on the outside grid',
                'a group WITH a heat-capacity table and without a declared range '
                'is not a constituent in the MIX family (it reports no range but '
                'enforces its table span; statement silent about which is its '
@@ -119,8 +163,9 @@ ASSUMPTIONS = ['numpy floating scalars count as plain numbers; Quantity objects 
 MANIFEST = dict(
     technique='exhaustive enumeration of correlations/estimates x boundary '
               'temperature grid; operation sequences Estimate/Update on a '
-              'small library and evaluate/set_range on single correlations vs '
-              'a dictionary model',
+              'small library and evaluate/set_range (accepted and refused) on '
+              'single correlations vs a dictionary model; all ordered pairs / '
+              'triples of interval ranges incl. disjoint ones',
     text='All members of the synthetic correlation family, all shipped groups '
          'and all small estimates are evaluated just inside, at, one ulp / '
          '1e-6 / 100 K outside each range bound, at 0 K and -10 K and at every '
@@ -141,10 +186,18 @@ MANIFEST = dict(
          'lacking the table, H or S - the lacking one bounding the range from '
          'above, below, both sides or not at all - must signal outside the '
          'range for every property, also the one the lacking group has no '
-         'data for.',
-    note='Temperatures are grid points; disjoint constituent ranges are not '
-         'in the alphabet; estimate objects made before an Update() are not '
-         'judged afterwards.',
+         'data for.  A set_range() call that is refused does not end the '
+         'history: the object must go on honouring whatever range it reports '
+         '(all pairs of refused / accepted calls over 8 placements).  '
+         'Estimates over groups whose ranges are all intervals over five '
+         'endpoints - 0 K written as 0.0, -0.0, integer 0 and the smallest '
+         'denormal - in every ordered pair and small ordered triple must '
+         'report exactly the intersection; ranges that do not intersect must '
+         'give no estimate or an estimate with an empty range that signals '
+         'everywhere.',
+    note='Temperatures are grid points; estimate objects made before an '
+         'Update() are not judged afterwards; inside temperatures below 1 K '
+         'are not probed when a synthetic range starts at 0 K.',
     ref='5/C06')
 P3 = ['get_CpoR', 'get_HoRT', 'get_SoR']
 
@@ -161,13 +214,16 @@ def has_data(k, prop):
 
 
 def judge(R, tag, obj, rng, knots, tref, cons, wit, expect_data, special=(),
-          keyfn=None):
+          keyfn=None, inkeyfn=None, inside_floor=None):
     """obj: correlation or estimate; cons: constituent correlations (or
     stand-ins with ND_Cp_data / ND_H_ref / ND_S_ref).  special: further
     temperatures that mean something to a constituent (every constituent's
     T_ref and range ends); together with the knots and tref they are probed
     on whichever side of the range they fall.  keyfn(key, T, prop) may rename
-    a violation key (never suppresses one)."""
+    the key of an outside violation, inkeyfn(key, T, prop, exception name) that
+    of an inside-raises violation (neither ever suppresses one).
+    inside_floor (fifth wave, RNG family only): inside temperatures below it
+    are counted and not probed (H/RT has a pole at 0 K)."""
     import numpy as np
     if rng is None:
         # no range reported: only temperatures every reading of the statement
@@ -183,6 +239,10 @@ def judge(R, tag, obj, rng, knots, tref, cons, wit, expect_data, special=(),
         outside = outside + [t for t in spec
                              if (t < rng[0] or t > rng[1]) and t not in outside]
     nocp = any(hasattr(k, 'ND_Cp_data') and not k.ND_Cp_data for k in cons)
+    if inside_floor is not None:
+        R.outcomes['inside:not-probed(below %g K)' % inside_floor] += sum(
+            1 for T in inside if T < inside_floor)
+        inside = [T for T in inside if T >= inside_floor]
     for T in inside:
         for prop in P3:
             R.evals += 1
@@ -194,7 +254,10 @@ def judge(R, tag, obj, rng, knots, tref, cons, wit, expect_data, special=(),
                 continue
             if r[0] != 'ok':
                 R.outcomes['inside:raises'] += 1
-                R.violation('inside-raises:%s:%s:%s' % (tag, prop, r[1]),
+                key = 'inside-raises:%s:%s:%s' % (tag, prop, r[1])
+                if inkeyfn is not None:
+                    key = inkeyfn(key, T, prop, r[1])
+                R.violation(key,
                             '%s: %s(%r) inside the range %r raised %s' % (
                                 wit.get('what'), prop, T, rng, r[1]), wit)
             elif not E.is_plain_finite(r[1]):
@@ -385,6 +448,7 @@ def run_estimates(R, name, i, n, only=None):
 # ------------------------------------------------------------------ Z family
 
 F1 = 'F1:noCp-value-at-Tref-outside-declared-range'
+F2 = 'F2:refused-set_range-installs-the-refused-range-and-drops-the-correlation'
 
 
 def run_Z(R, cls_name, only=None):
@@ -511,7 +575,10 @@ def run_history(R, mapping, pre, seq, wit):
 # table, on every base group of the HIST family as ThermochemIncomplete,
 # ThermochemGroup and (where it has a table) ThermochemRawData.  After each
 # accepted call the object must report the new range and is judged on the grid
-# against it.  A call that raises ends the history without a verdict.
+# against it.  (Fifth wave) two further placements that an object with a table
+# refuses (8 in all); a call that raises no longer ends the history: the object
+# is judged against whatever range it reports afterwards and the next call is
+# made (until then a refused call ended the history without a verdict).
 
 def setrange_candidates(g):
     b = W3.BASE[g]
@@ -527,6 +594,8 @@ def setrange_candidates(g):
         out.append(('cut-into-table', (lo, 0.5 * (ks[-1] + ks[-2]))))
     else:
         out.append(('cut-at-Tref+1', (lo, W3.H_TREF + 1.0)))
+    # (fifth wave) two further placements that an object with a table refuses
+    out += W5.refusing_placements(lo, hi, ks, W3.H_TREF)
     return out
 
 
@@ -607,7 +676,29 @@ def run_setrange(R, cls_name, g, only=None):
             r = E.ev(k.set_range, rng)
             if r[0] != 'ok':
                 R.outcomes['setrange:refused(%s)' % r[1].split(':')[0]] += 1
-                break
+                # (fifth wave) a refused call no longer ends the history: the
+                # object is judged on the grid against WHATEVER range it
+                # reports now (the statement does not say which), and the
+                # history goes on with the next call
+                R.nontrivial += 1
+                got = k.get_range()
+                got = None if got is None else (float(got[0]), float(got[1]))
+                took = got == rng
+                R.outcomes['setrange:after-refusal:reports-%s' % (
+                    'the-refused-range' if took else 'another-range')] += 1
+                ends = [t for r_ in (b['rng'], rng, got) if r_ for t in r_]
+                ends += [t for _, r_ in seq if r_ for t in r_]
+
+                def inkeyfn(key, T, prop, exc, took=took):
+                    # the one shape found to break the statement on the
+                    # unchanged tree gets a key of its own
+                    if took and exc == 'AttributeError':
+                        return F2
+                    return key
+                judge(R, 'setrange-refused:' + cls_name, k, got, knots, W3.H_TREF,
+                      [stand], wit, expect, special=[W3.H_TREF] + ends + union,
+                      inkeyfn=inkeyfn)
+                continue
             R.nontrivial += 1
             got = k.get_range()
             got = None if got is None else (float(got[0]), float(got[1]))
@@ -657,10 +748,6 @@ def run_mix(R, partner, lack, tier, only=None):
         want = W4.model_range(descs)
         if len(set(str(d['rng']) for d in descs)) > 1:
             R.nontrivial += 1
-        if want is not None and want[0] > want[1]:
-            # (thorough triples only) assumption 2
-            R.outcomes['unjudged(disjoint constituent ranges)'] += 1
-            continue
         r = E.ev(lambda: GroupLibrary(None, dict(
             (n, {'thermochem': _mix_corr(d)}) for n, d, _ in groups)))
         if r[0] != 'ok':
@@ -669,6 +756,11 @@ def run_mix(R, partner, lack, tier, only=None):
             continue
         lib = r[1]
         r = E.ev(lib.Estimate, dict((n, c) for n, _, c in groups), 'thermochem')
+        if want is not None and want[0] > want[1]:
+            # (thorough triples only; fifth wave) until then not judged: the
+            # intersection is empty, see judge_empty
+            judge_empty(R, 'mix', r, descs, wit)
+            continue
         if r[0] != 'ok':
             R.violation('mix:estimate-raises:' + r[1],
                         '%s: Estimate raised %s' % (wit['what'], r[1]), wit)
@@ -688,6 +780,115 @@ def run_mix(R, partner, lack, tier, only=None):
               lambda p, descs=descs: W4.model_has(descs, p), special=special)
     R.sample(dict(partner=partner, lacking=lack,
                   cases=sum(1 for _ in mix_cases(partner, lack, tier))), limit=1)
+
+
+# ------------------------------------------------------------- RNG family
+# (fifth wave) Estimates on a constructor-built library over groups whose
+# declared ranges are all intervals over the endpoint alphabet of
+# mc/domains/w5_c06.py - "0 K" in every presentation of zero included - in
+# every ordered pair (ordered triples over a reduced alphabet).  This brings
+# DISJOINT constituent ranges into the alphabet.  The intersection of
+# disjoint ranges is empty, so no temperature is valid: the estimate must be
+# refused (Estimate raises) or report a range that contains no temperature
+# (lower bound > upper bound) and then signal at every temperature; a
+# reported range that contains a temperature, or no range limits at all, is
+# not the intersection.
+
+def _rng_corr(d):
+    import pgradd.ThermoChem as tc
+    return tc.ThermochemGroup(d['H'], d['S'], dict(d['cp']), d['T_ref'], d['rng'])
+
+
+def judge_empty(R, tag, r, descs, wit):
+    """r = E.ev(lib.Estimate, ...) for constituents whose ranges do not
+    intersect."""
+    if r[0] != 'ok':
+        R.outcomes['%s:disjoint:refused(%s)' % (tag, r[1])] += 1
+        return
+    e = r[1]
+    got = e.get_range()
+    rs = [d['rng'] for d in descs if d['rng'] is not None]
+    if got is None or not (got[0] > got[1]):
+        R.outcomes['%s:disjoint:nonempty-range-reported' % tag] += 1
+        R.violation('%s:disjoint-nonempty-range' % tag,
+                    '%s: the constituent ranges %r do not intersect, yet the '
+                    'estimate reports %s' % (
+                        wit['what'], rs,
+                        'no range limits' if got is None else
+                        'the range %r, which contains temperatures' % (tuple(got),)), wit)
+        return
+    R.outcomes['%s:disjoint:empty-range-reported' % tag] += 1
+    # every temperature is outside an empty range
+    nocp = any(not d['cp'] for d in descs)
+    ts = sorted(set(float(t) for d in descs for t in
+                    list(d['cp']) + [d.get('T_ref', W3.H_TREF)] + list(d['rng'] or ())))
+    for T in ts:
+        for prop in P3:
+            R.evals += 1
+            R.nontrivial += 1
+            q = E.ev(getattr(e, prop), T)
+            if q[0] == 'exc':
+                R.outcomes['outside:raises'] += 1
+            elif 'IncompleteDataWarning' in q[2] and nocp:
+                R.outcomes['outside:warned(no Cp data)'] += 1
+            else:
+                R.outcomes['outside:unsignalled'] += 1
+                R.violation('%s:disjoint-unsignalled:%s' % (tag, prop),
+                            '%s: reports the empty range %r, yet %s(%r) returned %r '
+                            'without error or incomplete-data warning' % (
+                                wit['what'], tuple(got), prop, T, q[1]), wit)
+
+
+def run_rng(R, arity, first, tier, only=None):
+    from pgradd.GroupAdd.Library import GroupLibrary
+    n = 0
+    for case in W5.rng_cases(arity, first, tier):
+        if only is not None and only != case:
+            continue
+        n += 1
+        groups = W5.rng_groups(case)
+        descs = [d for _, d, _ in groups]
+        wit = dict(kind='rng', case=case,
+                   what='constructor-built library, estimate %r' % (
+                       [(g, c, 'range=%r T_ref=%r table=%r' % (
+                           d['rng'], d['T_ref'], sorted(d['cp'])))
+                        for g, d, c in groups],))
+        R.evals += 1
+        want = W5.model_range(descs)
+        rel = W5.relation(descs)
+        if rel != 'equal':
+            R.nontrivial += 1
+        r = E.ev(lambda: GroupLibrary(None, dict(
+            (g, {'thermochem': _rng_corr(d)}) for g, d, _ in groups)))
+        if r[0] != 'ok':
+            R.violation('rng:library-refused:' + r[1],
+                        '%s: building the library raised %s' % (wit['what'], r[1]), wit)
+            continue
+        lib = r[1]
+        r = E.ev(lib.Estimate, dict((g, c) for g, _, c in groups), 'thermochem')
+        if rel == 'disjoint':
+            judge_empty(R, 'rng', r, descs, wit)
+            continue
+        if r[0] != 'ok':
+            R.violation('rng:estimate-raises:' + r[1],
+                        '%s: Estimate raised %s although the ranges intersect in %r'
+                        % (wit['what'], r[1], want), wit)
+            continue
+        e = r[1]
+        got = e.get_range()
+        got = None if got is None else (float(got[0]), float(got[1]))
+        want = (float(want[0]), float(want[1]))
+        if got != want:
+            R.outcomes['rng:range-wrong'] += 1
+            R.violation('rng:estimate-range', '%s reports range %r, intersection of '
+                        'the declared ranges is %r' % (wit['what'], got, want), wit)
+            continue
+        R.outcomes['rng:range-intersection(%s)' % rel] += 1
+        knots = sorted(set(t for d in descs for t in d['cp']))
+        special = [t for d in descs for t in [d['T_ref']] + [float(x) for x in d['rng']]]
+        judge(R, 'rng', e, want, knots, descs[0]['T_ref'], [_Stand(d) for d in descs],
+              wit, lambda p: True, special=special, inside_floor=W5.FLOOR)
+    R.sample(dict(family='RNG', arity=arity, first=first, cases=n), limit=1)
 
 
 def run_hist(R, mi, tier, only=None):
@@ -725,6 +926,9 @@ def shards(tier, seed):
     for partner in W4.PARTNER_NAMES[tier]:
         for lack in W4.LACK_NAMES:
             out.append(('mix', partner, lack))
+    for arity in (2, 3):
+        for first in W5.rng_firsts(arity, tier):
+            out.append(('rng', arity, first))
     return out
 
 
@@ -742,6 +946,8 @@ def run_shard(shard, tier):
         run_setrange(R, shard[1], shard[2])
     elif shard[0] == 'mix':
         run_mix(R, shard[1], shard[2], tier)
+    elif shard[0] == 'rng':
+        run_rng(R, shard[1], shard[2], tier)
     else:
         run_estimates(R, shard[1], shard[2], shard[3])
     return R
@@ -761,6 +967,9 @@ def replay(w):
     elif w['kind'] == 'mix':
         c = w['case']
         run_mix(R, c['partner'], c['lack'], 'thorough', only=c)
+    elif w['kind'] == 'rng':
+        c = w['case']
+        run_rng(R, len(c['intervals']), c['intervals'][0], 'thorough', only=c)
     elif w['kind'] == 'hist':
         m = [tuple(x) for x in w['mapping']]
         run_hist(R, W3.MAPPINGS.index(m), 'thorough', only=w['history'])
@@ -783,13 +992,18 @@ BOUND = {t: 'family K of C05 (%s tier) x 3 classes; every group of 9 libraries '
             'mappings over a 5-group constructor-built library x all ordered '
             'selections of <= %d of the 2-3 Update() pieces of each group x '
             'with/without a prior Estimate = %d histories; family SETRANGE: '
-            'all sequences of <= 2 set_range() calls over 6 placements x 5 base '
+            'all sequences of <= 2 set_range() calls over 8 placements x 5 base '
             'groups x 3 classes, each without and with an evaluation on the '
             'grid before the first call (then every step probes the union of '
-            'the grids of all ranges of the history) = %d histories; family '
+            'the grids of all ranges of the history), refused calls judged and '
+            'continued = %d histories; family '
             'MIX: %d partner groups x 6 lacking-data shapes x 5 (with table) / '
             '8 (without) placements of the lacking group\'s range x 4 count '
-            'pairs x 2 orders%s = %d estimates'
+            'pairs x 2 orders%s = %d estimates; family RNG: all ordered pairs '
+            '(with repetition) of the %d intervals over {Z, 100, 300, 400, '
+            '1000} K, Z in %d presentations of 0 K, and all ordered triples of '
+            'the %d intervals of a reduced alphabet = %d estimates, disjoint '
+            'ranges included'
             % (t, W3.MAXLEN[t], sum(sum(1 for _ in W3.histories(m, W3.MAXLEN[t]))
                                     for m in W3.MAPPINGS),
                sum(sum(1 for _ in setrange_histories(g))
@@ -799,5 +1013,8 @@ BOUND = {t: 'family K of C05 (%s tier) x 3 classes; every group of 9 libraries '
                ' + triples with two lacking groups under all ordered pairs of '
                'distinct placements' if t == 'thorough' else '',
                sum(sum(1 for _ in mix_cases(p_, l_, t))
-                   for p_ in W4.PARTNER_NAMES[t] for l_ in W4.LACK_NAMES))
+                   for p_ in W4.PARTNER_NAMES[t] for l_ in W4.LACK_NAMES),
+               len(W5.intervals(2, t)), len(W5.ZEROS[t]), len(W5.intervals(3, t)),
+               sum(sum(1 for _ in W5.rng_cases(a_, f_, t))
+                   for a_ in (2, 3) for f_ in W5.rng_firsts(a_, t)))
          for t in ('quick', 'thorough')}
